@@ -9,7 +9,7 @@ where no pair has an empty key, equal an independent split-and-unquote decoder.
 import io
 import itertools
 
-from vf import core, sut
+from vf import core, sut, wsgi
 
 ID = 'C18'
 TITLE = 'Query strings and urlencoded forms decode to exactly what was sent'
@@ -136,6 +136,8 @@ def shards(tier, seed):
         out.append(('hist', 2, first))
         if tier == 'thorough' and first < 8:
             out.append(('hist', 3, first))
+    for first in range(len(APP_MENU)):
+        out.append(('appseq', 3, first))
     # seed extension: one more alphabet symbol in the raw strings, enumerated exhaustively up to length 5
     out.append(('rawx', ';/?#:@!$,\'"'[seed % 11], 5))
     return out
@@ -146,7 +148,7 @@ def bounds(tier, seed):
             'raw_alphabet': ALPHA, 'raw_length': 7 if tier == 'quick' else 9, 'flavours': 4}
 
 
-FLOORS = {'forms_other_delivery': 1000, 'hist_sequences': 600, 'repeated_key': 100, 'forms_checked': 1000, 'params_checked': 1000, 'raw_agree': 100000, 'raw_empty_key': 1000}
+FLOORS = {'app_sequence_requests': 500, 'forms_other_delivery': 1000, 'hist_sequences': 600, 'repeated_key': 100, 'forms_checked': 1000, 'params_checked': 1000, 'raw_agree': 100000, 'raw_empty_key': 1000}
 
 
 def _request():
@@ -181,7 +183,7 @@ class ShortStream:
         return self.src.readline(self.k if n is None or n < 0 else min(n, self.k))
 
 
-DELIVERIES = ['bytesio-offset', 'plain', 'body-read-first', 'body-sniffed-first', 'one-byte-reads', 'half-reads', 'chunked', 'chunked-3', 'chunked-upper']
+DELIVERIES = ['bytesio-offset', 'plain', 'body-read-first', 'body-sniffed-first', 'one-byte-reads', 'half-reads', 'chunked', 'chunked-3', 'chunked-upper', 'chunked-emptycl']
 
 
 def observe_forms(Request, body_text, qs='', ctype='rotate', delivery='plain'):
@@ -192,13 +194,15 @@ def observe_forms(Request, body_text, qs='', ctype='rotate', delivery='plain'):
     env = {'QUERY_STRING': qs, 'CONTENT_LENGTH': str(len(body)), 'wsgi.input': io.BytesIO(body), 'REQUEST_METHOD': 'POST'}
     if ctype is not None:
         env['CONTENT_TYPE'] = ctype
-    if delivery in ('chunked', 'chunked-3', 'chunked-upper'):
+    if delivery in ('chunked', 'chunked-3', 'chunked-upper', 'chunked-emptycl'):
         # Transfer-Encoding: chunked, no Content-Length (one chunk / chunks of three bytes / chunks of 11 bytes with the sizes in
         # upper-case hex and zero-padded)
         step = max(1, len(body)) if delivery == 'chunked' else (3 if delivery == 'chunked-3' else 11)
         fmt = b'0%X\r\n%s\r\n' if delivery == 'chunked-upper' else b'%x\r\n%s\r\n'
         raw = b''.join(fmt % (len(body[i:i + step]), body[i:i + step]) for i in range(0, len(body), step)) + b'0\r\n\r\n'
         del env['CONTENT_LENGTH']
+        if delivery == 'chunked-emptycl':
+            env['CONTENT_LENGTH'] = ''        # (PEP 3333: the variable may be empty or absent)
         env['HTTP_TRANSFER_ENCODING'] = 'chunked'
         env['wsgi.input'] = io.BytesIO(raw)
     if delivery == 'bytesio-offset':
@@ -346,8 +350,72 @@ def work_hist(spec, res, Request):
     return res
 
 
+# ---- sequences of requests on one application (one thread): every handler, also one that looks at its request only while its answer is
+# being streamed, gets the pairs of its own request
+APP_MENU = [('plain', 'who=first&n=1', None), ('plain', 'who=second&k=a&k=b', None), ('stream', 'who=third&n=%C3%BC', None),
+            ('stream', 'who=fourth', 'f=1&f=2&g=%E6%97%A5'), ('stream', '', 'who=fifth'), ('plain', '', None), ('stream', 'a=1&&a=2', None)]
+
+
+def appseq_once(om, seq):
+    app = om.Ombott()
+
+    def look():
+        rq = app.request
+        return repr((_plain(rq.query), _plain(rq.forms), _plain(rq.params))).encode()
+
+    def plain():
+        return look()
+
+    def stream():
+        yield b'>'
+        yield look()            # (the server is already iterating the answer when the request is looked at)
+    app.route('/plain', ['GET', 'POST'], plain)
+    app.route('/stream', ['GET', 'POST'], stream)
+    for k, i in enumerate(seq):
+        route, qs, body = APP_MENU[i]
+        if body is None:
+            env = wsgi.environ('GET', '/' + route, qs=qs)
+        else:
+            env = wsgi.environ('POST', '/' + route, qs=qs, body=body.encode('latin1'), ctype=FORM_CTYPES[0])
+        c = wsgi.call(app, env)
+        q, _ = ref_decode(qs)
+        f, _ = ref_decode(body or '')
+        prm = dict(q)
+        for kk, vv in f.items():
+            if kk in prm:
+                prm[kk] = (prm[kk] if isinstance(prm[kk], list) else [prm[kk]]) + (vv if isinstance(vv, list) else [vv])
+            else:
+                prm[kk] = vv
+        exp = (b'>' if route == 'stream' else b'') + repr((q, f, prm)).encode()
+        if c.code != 200 or c.body != exp:
+            return (f'request #{k + 1} ({"GET" if body is None else "POST"} /{route}?{qs}{"" if body is None else " with the form " + repr(body)}) is answered {c.status} {c.body[:200]!r}; '
+                    f'(query, forms, params) of this request are {exp[1 if route == "stream" else 0:]!r}')
+    return None
+
+
+def work_appseq(spec, res):
+    _, depth, first = spec
+    om = sut.load()
+    c = res['counters']
+    for rest in itertools.product(range(len(APP_MENU)), repeat=depth - 1):
+        seq = (first,) + rest
+        res['states'] += 1
+        res['transitions'] += depth
+        c['app_sequence_requests'] += depth
+        res['nontrivial'] += 1
+        bad = appseq_once(om, seq)
+        res['outcomes'].add('application sequence ' + ('ok' if bad is None else 'DIFF'))
+        if bad:
+            core.add_violation(res, {'kind': 'appseq', 'seq': list(seq)}, f'sequence {[APP_MENU[i][:2] for i in seq]}: {bad}', sig='appseq')
+    res['execs'] = res['transitions']
+    core.add_sample(res, {'application_sequences_from': list(APP_MENU[first]), 'depth': depth})
+    return res
+
+
 def work(spec):
     res = core.new_result()
+    if spec[0] == 'appseq':
+        return work_appseq(spec, res)
     Request = _request()
     kind = spec[0]
     if kind == 'hist':
@@ -431,6 +499,12 @@ def work(spec):
 
 
 def replay(case):
+    if case['kind'] == 'appseq':
+        bad = appseq_once(sut.load(), case['seq'])
+        if bad is None:
+            return None
+        return (f'one application serves {[("GET" if APP_MENU[i][2] is None else "POST") + " /" + APP_MENU[i][0] + "?" + APP_MENU[i][1] for i in case["seq"]]} one after the other on one thread '
+                f'(/stream looks at request.query / forms / params after its first chunk): {bad}')
     Request = _request()
     if case['kind'] == 'hist':
         Request = _fresh_request()
@@ -464,6 +538,7 @@ def replay(case):
         how = {'body-read-first': ' after the handler has read request.body completely', 'body-sniffed-first': ' after the handler has read 3 bytes of request.body',
                'bytesio-offset': ' (wsgi.input is a BytesIO of the whole connection, positioned at the start of the body)',
                'chunked-upper': ' (sent with Transfer-Encoding: chunked, 11-byte chunks, sizes in upper-case hex)',
+               'chunked-emptycl': ' (sent with Transfer-Encoding: chunked in 11-byte chunks, the environ has CONTENT_LENGTH = "")',
                'chunked': ' (sent with Transfer-Encoding: chunked, one chunk)', 'chunked-3': ' (sent with Transfer-Encoding: chunked, chunks of 3 bytes)',
                'one-byte-reads': ' (wsgi.input answers every read with one byte)', 'half-reads': ' (wsgi.input answers every read with at most half of the body)'}.get(case.get('delivery'), '')
         return None if got == exp else f'pairs {pairs!r} encoded as {qs!r}: Request.{case["at"]}{how} gives {got!r}, expected {exp!r}'
